@@ -17,6 +17,9 @@ from lib import jdfgen, vbuild, tracecheck
 HERE = os.path.dirname(os.path.abspath(__file__))
 # short TLC runs: few GC threads (the JVM start dominates); a large thread stack for the recursive operators of JDFSem
 JVM_SHORT = ("-Xss64m", "-XX:ParallelGCThreads=2")
+# trace validation (lib/tracecheck builds the java command itself): the same large thread stack through the environment;
+# SeqFinal of JDFSem nests one lazily evaluated collection per task, a cold JVM overflows the default 1 MB at ~40 tasks
+TRACE_ENV = {"JAVA_TOOL_OPTIONS": "-Xss64m"}
 
 
 class phase(object):
@@ -337,6 +340,11 @@ def campaign(ctx, entries, configs, trace_cfg, tag, again=None, window_ms=1500, 
             keep.append(e)
         ctx.extra["skipped_known_class_programs"] = len(entries) - len(keep)
         entries = keep
+    for e in entries:
+        if jdfgen.final_event_bound(e["prog"]) > jdfgen.FINAL_EVENT_MAX:
+            from lib import tlc
+            raise tlc.TLCError("program %s: the collection (%d tiles x %d) does not fit the recorder's Final event" % (
+                e["prog"]["name"], e["prog"]["ntiles"], e["prog"]["ts"]))
     with phase(ctx, "cross_check_programs"):
         cross_check_programs(ctx, entries, tag)
     with phase(ctx, "build"):
@@ -460,7 +468,7 @@ def _campaign(ctx, entries, configs, trace_cfg, tag, again, window_ms, jobs, kno
         ctx.sample({"program": metas[big]["program"], "tags": metas[big]["tags"], "config": metas[big]["config"],
                     "events": distinct[big][1:12], "nevents": len(distinct[big])})
     isdesc = {e["prog"]["name"]: e["desc"] for e in entries}
-    fails = ctx.validate("PTG", "ExecTrace", trace_cfg, distinct, batch=400, timeout=1500)
+    fails = ctx.validate("PTG", "ExecTrace", trace_cfg, distinct, batch=400, timeout=1500, env=TRACE_ENV)
     ctx.traces = ctx.extra["executions_run"]
     for f in fails:
         meta = metas[f.index]
@@ -480,7 +488,7 @@ def _campaign(ctx, entries, configs, trace_cfg, tag, again, window_ms, jobs, kno
     for n in names[:2]:
         meta, ex = hung[n]
         entry = [e for e in entries if e["prog"]["name"] == meta["program"]][0]
-        fl = ctx.validate("PTG", "ExecTrace", trace_cfg, [ex], timeout=600)
+        fl = ctx.validate("PTG", "ExecTrace", trace_cfg, [ex], timeout=600, env=TRACE_ENV)
         for f in fl:
             ctx.violation("taskpool of generated PTG program %s %s under %s never terminates or runs more bodies than its space has (re-confirmed with a 10x "
                           "no-progress window; %d programs/configurations hang in this run: %s): %s" % (
@@ -503,7 +511,7 @@ def corruption_selftest(ctx, spec_dir, module, cfg, execution, corrupt, what):
     # (the original execution was accepted as part of the validated batch); one TLC run: accepted or not
     path = os.path.join(ctx.scratch, "selftest-%d.ndjson" % len(ctx.extra.get("corruption_selftests", [])))
     tracecheck._write(bad, path)
-    v, r = tracecheck.validate_file(ctx.spec(spec_dir), module, cfg, path, timeout=600)
+    v, r = tracecheck.validate_file(ctx.spec(spec_dir), module, cfg, path, timeout=600, env=TRACE_ENV)
     ctx.extra["trace_tlc_runs"] = ctx.extra.get("trace_tlc_runs", 0) + 1
     if v.accepted:
         raise tlc.TLCError("sensitivity self-test of %s/%s failed (%s): the corrupted execution was accepted" % (
@@ -548,6 +556,6 @@ FMOD_ = jdfgen.FMOD
 
 
 def replay_trace(ctx, obj):
-    fails = ctx.validate("PTG", "ExecTrace", obj.get("trace_cfg", "ExecTraceC01.cfg"), [obj["events"]])
+    fails = ctx.validate("PTG", "ExecTrace", obj.get("trace_cfg", "ExecTraceC01.cfg"), [obj["events"]], env=TRACE_ENV)
     for f in fails:
         ctx.violation("recorded execution still rejected: %s" % json.dumps(f.describe())[:900], obj)
